@@ -267,7 +267,7 @@ inline void drive_binary(const char* prop, const char* type, const char* opname,
     const uint64_t n = pairs.size();
     std::vector<unsigned> rots = rotations(n, W, opt().seed + hash_str(opname));
     for (unsigned rot : rots) {
-        for (uint64_t base = 0; base < n + rot && c.traps < 8; base += W) {
+        for (uint64_t base = 0; base < n + rot && c.traps < 200000; base += W) {
             std::array<T, V::width> a, b;
             for (unsigned i = 0; i < W; ++i) {
                 uint64_t j = (base + i >= rot) ? (base + i - rot) : (n - rot + base + i);
@@ -309,7 +309,7 @@ inline void drive_unary(const char* prop, const char* type, const char* opname,
     const uint64_t n = vals.size();
     std::vector<unsigned> rots = rotations(n, W, opt().seed + hash_str(opname));
     for (unsigned rot : rots) {
-        for (uint64_t base = 0; base < n + rot && c.traps < 8; base += W) {
+        for (uint64_t base = 0; base < n + rot && c.traps < 200000; base += W) {
             std::array<T, V::width> a;
             for (unsigned i = 0; i < W; ++i) {
                 uint64_t j = (base + i >= rot) ? (base + i - rot) : (n - rot + base + i);
